@@ -11,8 +11,8 @@ open Wp Wp.PM
 
 /-! ### the footnote loop of a line -/
 
-theorem footLoop_guard (c : FCtx) (guard : Bool) (bs y : Rat) (fns : List Fn) (fs fs' : FState) (o : FootOut)
-    (h : footLoop c guard bs y fns fs = (o, fs')) (ho : o ≠ .ok) : guard = true := by
+theorem footLoop_guard (c : FCtx) (guard pie : Bool) (bs y : Rat) (fns : List Fn) (fs fs' : FState) (o : FootOut)
+    (h : footLoop c guard pie bs y fns fs = (o, fs')) (ho : o ≠ .ok) : guard = true := by
   induction fns generalizing fs with
   | nil => simp [footLoop] at h; exact absurd h.1.symm ho
   | cons f rest ih =>
@@ -101,7 +101,7 @@ theorem lineLoopF_broke (c : FCtx) (st : PStyle) (calls : List Call) (b : BoxSt)
       omega
     exact ih (by omega) this (by omega) h
   | case4 fuel i y s fs resume newPosY dbd offset overflow hov shift newPosY' mt' fs' hfl abort stop' r' lines' hb =>
-    have hg := footLoop_guard _ _ _ _ _ _ _ _ hfl (by decide)
+    have hg := footLoop_guard _ _ _ _ _ _ _ _ _ hfl (by decide)
     simp only [LineOutcome.broke.injEq] at h
     obtain ⟨ha, hst, _, hs'⟩ := h
     have hne : s.lines.isEmpty = false ∨ pie = false := by
